@@ -96,6 +96,7 @@ type refNav struct {
 	// statistics
 	nPredPaths, nDeref, nOperandPaths, nTwoPathOperand int
 	twoPathOperand                                     bool
+	eqInFnOperand, predInFnOperand                     bool // shapes of the known findings
 	lastNavigated                                      string
 }
 
@@ -172,6 +173,23 @@ func (r *refNav) path(p *xp.Path, outer *refPathState, derefArg bool) xp.Val {
 				if npaths > 1 {
 					r.twoPathOperand = true
 				}
+				xp.Walk(pr.Operand, false, func(x *xp.Node) {
+					if x.Kind != xp.KFunc {
+						return
+					}
+					xp.Walk(x, false, func(y *xp.Node) {
+						if y.Kind == xp.KBin && y.Op == "=" {
+							r.eqInFnOperand = true
+						}
+						if y.Kind == xp.KPath {
+							for _, st := range y.Path.Steps {
+								if len(st.Preds) > 0 {
+									r.predInFnOperand = true
+								}
+							}
+						}
+					})
+				})
 				v := r.eval(pr.Operand, &snapshot)
 				keys[pr.Key] = xp.ToString(v)
 			}
@@ -286,6 +304,16 @@ func c02GenOperand(r *core.Rng, depth int) *xp.Node {
 			return xp.Fn("not", xp.Fn("false"))
 		}
 	case 5:
+		if r.Chance(1, 5) {
+			if r.Bool() {
+				// a comparison inside the argument of a function: its '=' is an ordinary operator
+				return xp.Fn("string", xp.Bin("=", c02OperandPath(r), xp.Lit(core.Pick(r, c02SafeStr))))
+			}
+			// a path with a predicate of its own inside the argument of a function
+			ap := &xp.Path{Root: xp.RootAbs, Steps: []xp.Step{{Kind: xp.SName, Name: core.Pick(r, c02Names),
+				Preds: []xp.Pred{{Key: core.Pick(r, c02Keys), Operand: xp.Lit(core.Pick(r, c02SafeStr))}}}, {Kind: xp.SName, Name: core.Pick(r, c02Names)}}}
+			return xp.Fn("string", xp.PathNode(ap))
+		}
 		// function with one path argument
 		switch r.Intn(3) {
 		case 0:
@@ -505,6 +533,12 @@ func c02CheckRun(m *xpath.Machine, run int, e *xp.Node, src string, res *core.Ca
 	class := func(kind string) string {
 		if run > 0 {
 			kind = "re-evaluation/" + kind
+		}
+		if ref.eqInFnOperand {
+			return "C02/equality-inside-a-function-operand-of-a-predicate"
+		}
+		if ref.predInFnOperand {
+			return "C02/predicate-inside-a-function-operand-of-a-predicate"
 		}
 		if ref.twoPathOperand {
 			return "C02/two-paths-in-one-predicate-operand"
